@@ -20,14 +20,15 @@ import (
 )
 
 type Case struct {
-	ID   int     `json:"id"`
-	Kind string  `json:"kind"`           // issorted | heap | sort | heapiter
-	Alg  int     `json:"alg,omitempty"`  // sort: 0 SortMerge, 1 SortQuick
-	Mode int     `json:"mode,omitempty"` // heapiter: 0 the iterator completes, 1 it fails after K values, 2 the context is cancelled while value K is produced
-	K    int     `json:"k,omitempty"`
-	Lt   int     `json:"lt"`
-	L    []int64 `json:"l,omitempty"`
-	Ops  []HOp   `json:"ops,omitempty"`
+	ID    int     `json:"id"`
+	Kind  string  `json:"kind"`           // issorted | heap | sort | heapiter
+	Alg   int     `json:"alg,omitempty"`  // sort: 0 SortMerge, 1 SortQuick
+	Mode  int     `json:"mode,omitempty"` // heapiter: 0 the iterator completes, 1 it fails after K values, 2 the context is cancelled while value K is produced
+	K     int     `json:"k,omitempty"`
+	Twice bool    `json:"twice,omitempty"` // sort: sort the list a second time (an already sorted input)
+	Lt    int     `json:"lt"`
+	L     []int64 `json:"l,omitempty"`
+	Ops   []HOp   `json:"ops,omitempty"`
 }
 
 type HOp struct {
@@ -196,8 +197,8 @@ func main() {
 		if err := kit.ReadReplayCase(run.Replay, &c); err != nil {
 			panic(err)
 		}
-		execCase(run, c, true)
-		run.Finish()
+		guarded(run, c, true)
+		finish(run)
 		return
 	}
 
@@ -213,6 +214,11 @@ func main() {
 		{Kind: "sort", Alg: 0, Lt: 0, L: []int64{3, 1, 2}},
 		{Kind: "sort", Alg: 1, Lt: 0, L: []int64{3, 1, 2}},
 		{Kind: "sort", Alg: 0, Lt: 0, L: []int64{}},
+		{Kind: "sort", Alg: 0, Lt: 0, L: []int64{1, 2, 3, 4}},           // already sorted
+		{Kind: "sort", Alg: 0, Lt: 0, L: []int64{2, 2, 2}},              // all equal
+		{Kind: "sort", Alg: 0, Lt: 0, L: []int64{3, 1, 2}, Twice: true}, // sorted twice
+		{Kind: "sort", Alg: 1, Lt: 0, L: []int64{1, 2, 3, 4}},
+		{Kind: "sort", Alg: 1, Lt: 2, L: []int64{4, 1, 3, 0}, Twice: true},
 		{Kind: "sort", Alg: 0, Lt: 1, L: []int64{5}},
 		{Kind: "sort", Alg: 1, Lt: 2, L: []int64{5, 2, 8, 3, 0, 6}},
 		{Kind: "sort", Alg: 0, Lt: 2, L: []int64{5, 2, 8, 3, 0, 6}},
@@ -229,10 +235,12 @@ func main() {
 	for _, c := range corpus {
 		c.ID = id
 		id++
-		execCase(run, c, false)
+		if !guarded(run, c, false) {
+			break
+		}
 	}
 	n := run.Pick(1500, 40000)
-	for i := 0; i < n; i++ {
+	for i := 0; i < n && hangs < maxHangs; i++ {
 		r := run.Rand.Fork()
 		c := Case{ID: id, Lt: r.Intn(6)}
 		id++
@@ -242,6 +250,7 @@ func main() {
 		} else if x < 4 {
 			c.Kind = "sort"
 			c.Alg = r.Intn(2)
+			c.Twice = r.Chance(1, 4)
 			if c.Alg == 1 {
 				c.Lt = r.Intn(nStrict) // sort.SliceStable with a non-strict lt is algorithm-specific
 			}
@@ -274,12 +283,14 @@ func main() {
 				}
 			}
 		}
-		execCase(run, c, false)
+		if !guarded(run, c, false) {
+			break
+		}
 	}
-	run.Finish()
+	finish(run)
 }
 
-func execCase(run *kit.Run, c Case, verbose bool) {
+func execCase(run *recorder, c Case, verbose bool) {
 	lt := ltOf(c.Lt)
 	switch c.Kind {
 	case "issorted":
@@ -348,7 +359,7 @@ func execCase(run *kit.Run, c Case, verbose bool) {
 // list.  Oracle (independent of the model): permutation of the same elements, no element lt its
 // predecessor (strict weak orders), SortQuick keeps equal elements in their previous order,
 // every element still In(l), walks/Len consistent, pop and push work afterwards.
-func execSort(run *kit.Run, c Case, verbose bool) {
+func execSort(run *recorder, c Case, verbose bool) {
 	lt := ltOf(c.Lt)
 	name := []string{"SortMerge", "SortQuick"}[c.Alg&1]
 	l := &dt.List[int64]{}
@@ -371,10 +382,12 @@ func execSort(run *kit.Run, c Case, verbose bool) {
 				fail("panic", fmt.Sprint("panic: ", p))
 			}
 		}()
-		if c.Alg&1 == 0 {
-			l.SortMerge(lt)
-		} else {
-			l.SortQuick(lt)
+		for i := 0; i < 1+map[bool]int{true: 1}[c.Twice]; i++ {
+			if c.Alg&1 == 0 {
+				l.SortMerge(lt)
+			} else {
+				l.SortQuick(lt)
+			}
 		}
 	}()
 	walk := func(fwd bool) (vs []int64, ps []*dt.Element[int64]) {
@@ -456,6 +469,53 @@ func execSort(run *kit.Run, c Case, verbose bool) {
 		if allIn == 0 {
 			fail("usable", "an element of the sorted list does not report In(list)")
 		}
+		// handle identity: an element handle taken before the sort still carries ITS value afterwards,
+		// still reports In(list), and Remove() through it removes exactly that element
+		// (mirrors the handle part of sort_obs in coq/Corr/C17_corr.v)
+		func() {
+			defer func() {
+				if p := recover(); p != nil {
+					fail("handle-identity", fmt.Sprint("panic while using a handle kept across the sort: ", p))
+				}
+			}()
+			for i, e := range before {
+				in := int64(0)
+				if e.In(l) {
+					in = 1
+				}
+				obs = append(obs, e.Value(), in)
+				if e.Value() != c.L[i] || !e.In(l) {
+					fail("handle-identity", fmt.Sprintf("%v -> %v: the handle of element %d (value %d) now carries %d, In(list)=%v", c.L, f, i, c.L[i], e.Value(), e.In(l)))
+				}
+			}
+			picks := []int{}
+			if len(before) >= 1 {
+				picks = append(picks, 0)
+			}
+			if len(before) >= 2 {
+				picks = append(picks, len(before)/2)
+			}
+			ref := append([]int64{}, f...)
+			for _, i := range picks {
+				e := before[i]
+				pos := -1
+				for j, q := range fp {
+					if q == e {
+						pos = j
+					}
+				}
+				okr := e.Remove()
+				obs = append(obs, map[bool]int64{false: 0, true: 1}[okr])
+				if pos >= 0 && pos < len(ref) {
+					ref = append(ref[:pos:pos], ref[pos+1:]...)
+				}
+				f, fp = walk(true)
+				lp(f)
+				if !okr || e.In(l) || fmt.Sprint(f) != fmt.Sprint(ref) || l.Len() != len(ref) {
+					fail("handle-identity", fmt.Sprintf("Remove() through the handle of element %d (value %d) returned %v and left %v (Len %d), expected %v", i, c.L[i], okr, f, l.Len(), ref))
+				}
+			}
+		}()
 		// the list must stay FULLY usable: the probe below touches the sentinel side too
 		// (PushFront, pushes into the drained list); it mirrors `probe` in coq/Corr/C17_corr.v
 		// and is judged against a plain-slice reference
@@ -570,9 +630,9 @@ func execSort(run *kit.Run, c Case, verbose bool) {
 	run.Count("sort/" + name + "/len" + bucket(len(c.L)))
 	term := ""
 	if cls != "panic" {
-		term = fmt.Sprintf("CSort %s %s %s %s %s", kit.ZI(c.ID), kit.ZI(c.Alg&1), kit.ZI(c.Lt), kit.ZList(c.L), kit.ZList(obs))
+		term = fmt.Sprintf("CSort %s %s %s %s %s", kit.ZI(c.ID), kit.ZI(c.Alg&1+2*map[bool]int{true: 1}[c.Twice]), kit.ZI(c.Lt), kit.ZList(c.L), kit.ZList(obs))
 	}
-	run.Case(c.ID, c, term, fmt.Sprintf("q|%d|%d|%v", c.Alg, c.Lt, c.L), len(c.L) >= 2)
+	run.Case(c.ID, c, term, fmt.Sprintf("q|%d|%v|%d|%v", c.Alg, c.Twice, c.Lt, c.L), len(c.L) >= 2)
 }
 
 // heapOracle: multiset conservation and minimality of every pop, starting from a heap that holds
@@ -664,7 +724,7 @@ func buildHeapFromIterator(c Case) (h *dt.Heap[int64], err error, panicked strin
 	return h, err, ""
 }
 
-func execHeapIter(run *kit.Run, c Case, verbose bool) {
+func execHeapIter(run *recorder, c Case, verbose bool) {
 	lt := ltOf(c.Lt)
 	h, err, panicked := buildHeapFromIterator(c)
 	bad := ""
